@@ -5,6 +5,8 @@ Regenerated fragment: Rip/Gen/EffectOrder.lean (the effect order of the emitters
 handlers, extracted from the current source by ripx on every run).
 -/
 import Rip.Lemmas.Join
+import Rip.Lemmas.Emitters
+import Rip.Cex.C06Emitters
 import Rip.Cex.C06
 import Rip.Driver.C06
 import Rip.Gen.Consts
@@ -74,5 +76,31 @@ order = log order -/
 theorem gen_task_emit_seq_critical :
     (Rip.Gen.orderOf 3).head? = some (.lock 2) ∧ (Rip.Gen.orderOf 3).getLast? = some (.unlock 2) ∧
     ((Rip.Gen.orderOf 3).filter (fun e => e == .lock 2 || e == .unlock 2)).length = 2 := by decide
+
+/-! ### several emitters on one stream (the stdout and stderr pumps of one task) -/
+
+/-- **for any number of concurrent emitters, any frame counts and EVERY interleaving** of the effects
+of `TaskEmitter::emit` (seq lock, draw, buffer lock, publish, record, release): frames are published
+in seq order and recorded in seq order without gap or duplicate, the record is a prefix of the
+publication at most one frame behind, and when everybody is done every frame went out exactly once -/
+theorem emitters_in_order (counts sched : List Nat) :
+    (∃ k, (Rip.Emitters.run true counts sched).published = List.range k) ∧
+    (∃ k, (Rip.Emitters.run true counts sched).recorded = List.range k) ∧
+    (Rip.Emitters.run true counts sched).recorded <+: (Rip.Emitters.run true counts sched).published ∧
+    (Rip.Emitters.run true counts sched).published.length ≤ (Rip.Emitters.run true counts sched).recorded.length + 1 :=
+  ⟨Rip.Emitters.published_in_order counts sched, Rip.Emitters.recorded_in_order counts sched,
+   (Rip.Emitters.recorded_prefix_of_published counts sched).1, (Rip.Emitters.recorded_prefix_of_published counts sched).2⟩
+
+theorem emitters_complete (counts sched : List Nat) (hd : Rip.Emitters.allDone (Rip.Emitters.run true counts sched) = true) :
+    (Rip.Emitters.run true counts sched).published = List.range counts.sum ∧
+    (Rip.Emitters.run true counts sched).recorded = List.range counts.sum := Rip.Emitters.complete counts sched hd
+
+theorem emitters_can_finish (counts sched : List Nat) :
+    ∃ more, Rip.Emitters.allDone (Rip.Emitters.run true counts (sched ++ more)) = true := Rip.Emitters.can_finish counts sched
+
+/-- releasing the seq lock right after the draw inverts the order (why `gen_task_emit_seq_critical` matters) -/
+theorem emitters_early_release_inverts : ∃ (counts sched : List Nat),
+    (Rip.Emitters.run false counts sched).published = [1, 0] ∧ (Rip.Emitters.run false counts sched).recorded = [1, 0] :=
+  Rip.Cex.C06Emitters.early_release_inverts_order
 
 end Rip.Props.C06
